@@ -3,12 +3,15 @@ open Model
 open Sexp
 open Conv
 
-type c16case = { umode : int; mask : int; uses : bool; base : n list; strict : bool; kind : string; res : n list; probes : (n list * n list) list; ng : int; nm : int; twice : bool }
+type c16case = { gp : n list; umode : int; mask : int; uses : bool; base : n list; strict : bool; kind : string; res : n list; probes : (n list * n list) list; ng : int; nm : int; twice : bool }
 let parse_case = function
   | L (A "c16" :: m :: u :: b :: st :: A kind :: res :: L ps :: rest) ->
-    let (ng, nm, twice, umode) = match rest with [a; b] -> (int a, int b, false, 0) | [a; b; t] -> (int a, int b, bool t, 0)
-                                            | [a; b; t; u] -> (int a, int b, bool t, int u) | _ -> (0, 0, false, 0) in
-    { twice; umode; mask = int m; uses = bool u; base = str b; strict = bool st; kind; res = str res; ng; nm;
+    let (ng, nm, twice, umode, gp) = match rest with
+      | [a; b] -> (int a, int b, false, 0, str_of_ascii "/g") | [a; b; t] -> (int a, int b, bool t, 0, str_of_ascii "/g")
+      | [a; b; t; u] -> (int a, int b, bool t, int u, str_of_ascii "/g")
+      | [a; b; t; u; g] -> (int a, int b, bool t, int u, str g)     (* the prefix of the enclosing group: "/g", or the root *)
+      | _ -> (0, 0, false, 0, str_of_ascii "/g") in
+    { twice; umode; gp; mask = int m; uses = bool u; base = str b; strict = bool st; kind; res = str res; ng; nm;
       probes = List.map (function L [m; p] -> (str m, str p) | _ -> failwith "c16: bad probe") ps }
   | x -> failwith ("c16: bad case " ^ to_string x)
 
@@ -66,7 +69,7 @@ let model cs =
          | [SGroup (p, _, body)] -> [SGroup (p, List.init c.nm (fun k -> nat_of_int (60 + k)), body)]
          | x -> x) in
     let inner = inner @ inner2 in
-    let prog = if c.ng > 0 then [SGroup (str_of_ascii "/g", [], SUse (List.init c.ng (fun k -> nat_of_int (50 + k))) :: inner)] else inner in
+    let prog = if c.ng > 0 then [SGroup (c.gp, [], SUse (List.init c.ng (fun k -> nat_of_int (50 + k))) :: inner)] else inner in
     match exec_block c.strict prog rinit with
     | Panic -> L [A "regpanic"]
     | Ok st ->
@@ -81,13 +84,13 @@ let spec cs =
   let c = parse_case cs in
   if c.kind <> "ptr" && c.kind <> "badsig" then L [A "regpanic"] else
     let g0 = nf c.strict (c.base @ c.res) in
-    let g = if c.ng > 0 then nf c.strict (str_of_ascii "/g" @ g0) else g0 in
+    let g = if c.ng > 0 then nf c.strict (nf c.strict c.gp @ g0) else g0 in
     let acts = acts_of c.mask in
     let rows g = List.map (fun a -> (route_name c.res a, action_methods a,
                                      (if c.strict then nf c.strict (g @ nf c.strict (action_path_abs a)) else documented_path g a),
                                      List.length (outer_mws c) + List.length (uses_of c a), a)) acts in
     let g20 = nf c.strict (second_base c.base @ c.res) in
-    let g2 = if c.ng > 0 then nf c.strict (str_of_ascii "/g" @ g20) else g20 in
+    let g2 = if c.ng > 0 then nf c.strict (nf c.strict c.gp @ g20) else g20 in
     observe c (rows g @ (if c.twice then rows g2 else []))
 
 let judge cs obs =
